@@ -253,6 +253,9 @@ func Alphabet(t *Type, reduced bool) []*V {
 				out = append(out, VUnion(t, m.Alias, mv).D("member(%s)>%s", m.Alias, mv.Dev))
 			}
 		}
+		if t.HasNull {
+			out = append(out, VUnion(t, "", nil).D("member(null)"))
+		}
 	case Array:
 		e := Alphabet(t.Elem, reduced)
 		x := e[0]
